@@ -377,6 +377,31 @@ def sharing(tier, seed):
                              f"after g2 = g.copy(), {mname} on the {'original' if direction == 'original_mutated' else 'copy'} changed what "
                              f"the other grid reports: {d[:6]}", V_COPY,
                              {"mesh": mesh["name"], "grid_prepared": prepared, "mutator": mname, "direction": direction}, d[:8])
+        # what a grid EXPORTS is part of what it reports: after g2 = g.copy(), modifying one side and exporting it (default caching)
+        # must not change what the other side exports (conversion caches are per grid)
+        for ename, efn, _edit, enorm in _geometry_exports():
+            for exported_before_copy in (False, True):
+                for direction in ("original_mutated", "copy_mutated"):
+                    cases += 1
+                    distinct.add((mesh["name"], "export_after_copy", ename, exported_before_copy, direction))
+                    try:
+                        ref = enorm(efn(build(mesh, "plain")))
+                        g = build(mesh, "plain")
+                        if exported_before_copy:
+                            efn(g)
+                        g2 = g.copy()
+                        a, b = (g, g2) if direction == "original_mutated" else (g2, g)
+                        a.node_lon = xr.DataArray(a.node_lon.values + 0.25, dims=a.node_lon.dims, attrs=dict(a.node_lon.attrs))
+                        efn(a)
+                        got = enorm(efn(b))
+                    except Exception:
+                        continue
+                    if not _same_geo(got, ref):
+                        fail(f"copy_shares_state:export_cache:{ename.split('(')[0]}",
+                             f"after g2 = g.copy(), setting node_lon on the {'original' if direction == 'original_mutated' else 'copy'} and "
+                             f"calling {ename} on it changed what {ename} returns for the other grid", V_COPY,
+                             {"mesh": mesh["name"], "export": ename, "exported_before_copy": exported_before_copy, "direction": direction},
+                             _brief(got), _brief(ref))
         # UxDataArray.copy(deep=True) relies on Grid.copy (also when replacement data are supplied: deep defaults to True)
         for how in ("deep=True", "data=...", "deep=True,data=..."):
             cases += 1
@@ -438,6 +463,27 @@ def sharing(tier, seed):
                         fail(f"export_aliases_grid:to_xarray({fmt})",
                              f"editing the dataset returned by to_xarray('{fmt}') (call #{ncall}) changed what the grid reports: {d[:6]}", V_EXP,
                              {"mesh": mesh["name"], "grid_prepared": prepared, "format": fmt, "nth_call": ncall}, d[:8])
+            # ---- exporting a VARIABLE on the grid (cache on / off) is itself an export whose result the caller owns: it must not
+            #      change what the grid's own export returns afterwards
+            for eng in ("geopandas", "spatialpandas"):
+                for cache_flag in (True, False):
+                    cases += 1
+                    distinct.add((mesh["name"], prepared, "variable_export", eng, cache_flag))
+                    g = build(mesh, prepared)
+                    try:
+                        ref = g.to_geodataframe(periodic_elements="ignore", engine=eng)
+                        cols_before, n_before = list(ref.columns), len(ref)
+                        da = ux.UxDataArray(np.arange(mesh["n_face"], dtype=float), dims=["n_face"], uxgrid=g, name="temp")
+                        out = da.to_geodataframe(periodic_elements="ignore", engine=eng, cache=cache_flag)
+                        out["caller_column"] = 1.0
+                        again = g.to_geodataframe(periodic_elements="ignore", engine=eng)
+                    except Exception:
+                        continue
+                    if list(again.columns) != cols_before or len(again) != n_before or list(ref.columns) != cols_before:
+                        fail(f"variable_export_alters_grid_export:to_geodataframe:cache={cache_flag}",
+                             f"after UxDataArray.to_geodataframe(cache={cache_flag}) and a column added to ITS result, Grid.to_geodataframe() "
+                             f"returns columns {list(again.columns)} (before: {cols_before})", V_EXP,
+                             {"mesh": mesh["name"], "grid_prepared": prepared, "engine": eng, "cache": cache_flag}, list(again.columns), cols_before)
             # ---- geometry exports
             for name, call, edit, norm in _geometry_exports():
                 cases += 1
